@@ -241,6 +241,21 @@ def exitTest (tol : Rat) (r : List Cell) : Bool :=
     | some x => decide (-tol < x ∧ x < tol)
     | none => false)
 
+/-- sum of squares of a residual vector; `none` when an entry is not finite -/
+def sumSq : List Cell → Option Rat
+  | [] => some 0
+  | none :: _ => none
+  | some x :: rest => match sumSq rest with
+    | some s => some (x * x + s)
+    | none => none
+
+/-- the acceptance test of the `scipy_root` facade (`solver_dispatcher.scipy_root`), as far as it concerns the
+residuals: `‖f‖₂ < tol`, i.e. `Σ fᵢ² < tol²` (scipy's own `success` flag is a further, unmodelled, conjunct) -/
+def exitTest2 (tol : Rat) (r : List Cell) : Bool :=
+  match sumSq r with
+  | some s => decide (s < tol * tol)
+  | none => false
+
 /-! ### Write-back: `extract_levels`, `extract_changes`, `_update_variant_with_final_guess` -/
 
 def writeBack (loggable : Nat → Bool) (ev : Evaluator) (g : List Rat) (v : Variant) : Variant :=
